@@ -335,6 +335,36 @@ func step(w []string, line string) string {
 				out = append(out, p)
 			}
 			return w[1] + "<" + strings.Join(out, "|")
+		case "saltspread":
+			// saltspread <client> <parentKey> <n>: n keys minted from one master key must not all
+			// carry the same salt (the salt is what ties the cipher blocks / keystream to one key)
+			n := int(u(w[3]))
+			c := b.Clients[w[1]]
+			salts := map[uint16]bool{}
+			for i := 0; i < n; i++ {
+				request(w[1], uint16(1000+i), "keygen", map[string]interface{}{"key": keyStr(w[2]), "channel": "a/b/", "type": "rw", "ttl": 0})
+				c.Await("puback:")
+				for _, p := range c.Take() {
+					if strings.HasPrefix(p, "pub:") {
+						f := strings.SplitN(p, ":", 3)
+						var v map[string]interface{}
+						if json.Unmarshal(vlib.UnHex(f[2]), &v) == nil {
+							if ks, ok := v["key"].(string); ok && ks != "" {
+								if k, err := b.Cipher.DecryptKey([]byte(ks)); err == nil {
+									salts[k.Salt()] = true
+								}
+							}
+						}
+					}
+				}
+			}
+			if len(salts) == 0 {
+				return "no-keys"
+			}
+			if len(salts) == 1 {
+				return "same-salt"
+			}
+			return "distinct"
 		case "restart":
 			b.Restart()
 			order, guids = nil, map[string]string{}
